@@ -383,7 +383,7 @@ func ruleConvert(c *Ctx) {
 					continue
 				}
 				if _, isP := loadsField(b.X, parentF); isP {
-					if (b.Op == token.NEQ && !cd.Sense) || (b.Op == token.EQL && cd.Sense) {
+					if (b.Op == token.NEQ && !cd.Sense) || (eqHolds(b, cd)) {
 						okc = true
 					}
 				}
